@@ -11,6 +11,7 @@ import (
 	"github.com/dapr/kit/events/ratelimiting"
 
 	"verif/harness/common"
+	"verif/simclock"
 	"verif/simrt"
 )
 
@@ -125,6 +126,12 @@ func body(s *simrt.Sim, tier string) {
 	if err != nil {
 		s.Fail("new", err.Error())
 		return
+	}
+	// one run in three uses a clock whose timers behave like pre-Go-1.23 / fake-clock timers (Stop reports false
+	// once the timer has fired, the tick stays in the channel): the limiter has code for exactly that
+	oldTimers := s.Choose(3, "oldtimers") == 0
+	if oldTimers {
+		rl.(ratelimiting.RateLimiterWithTicker).WithTicker(&simclock.SkewClock{})
 	}
 	nadders := 1
 	if !settled {
